@@ -364,7 +364,11 @@ fn body(ctx: &mut Ctx) {
                 check_ascii(ctx, "UpperHex", &ux, 16, true);
                 check_ascii(ctx, "Octal", &o, 8, false);
                 check_ascii(ctx, "Binary", &b, 2, false);
-                check_ascii(ctx, "Debug", &dbg, 10, false);
+                // Debug output is not a radix text (its shape is not pinned): it must only be valid ASCII
+                ctx.compared(1);
+                if !dbg.is_ascii() {
+                    ctx.viol(format!("Debug text v={}", v.to_hex()), "formatted text is not ASCII", vec![], "ASCII".into(), format!("{:?}", dbg.as_bytes().iter().take(40).collect::<Vec<_>>()));
+                }
                 ctx.compared(1);
                 if !padded.is_ascii() {
                     ctx.viol(format!("padded format v={}", v.to_hex()), "formatted text is not ASCII", vec![], "ASCII".into(), padded);
